@@ -392,6 +392,63 @@ func passAnte(c *Ctx) error {
 			}
 		}
 	}
+	// does validateMsg judge (re)delegations against the stake as it will be when they execute: a running
+	// per-validator / total of the amounts admitted earlier in the same transaction, created once per
+	// transaction in AnteHandle, read in the projection and updated after the test, handed down into MsgExec
+	cumulative := "none"
+	if vm != nil && vm.Body != nil && ah != nil && ah.Body != nil {
+		var names []string
+		for _, f := range vm.Type.Params.List {
+			for _, n := range f.Names {
+				names = append(names, n.Name)
+			}
+		}
+		switch {
+		case len(names) == 2:
+			cumulative = "some false"
+		case len(names) == 3:
+			pn := names[2]
+			okCases, seen := true, 0
+			for _, st := range vm.Body.List {
+				ts, ok := st.(*ast.TypeSwitchStmt)
+				if !ok {
+					continue
+				}
+				for _, cc := range ts.Body.List {
+					cl := cc.(*ast.CaseClause)
+					for _, t := range cl.List {
+						name := strings.TrimPrefix(c.Src(t), "*")
+						var body strings.Builder
+						for _, b := range cl.Body {
+							body.WriteString(c.Src(b) + "\n")
+						}
+						src := body.String()
+						switch name {
+						case "stakingtypes.MsgDelegate", "stakingtypes.MsgBeginRedelegate":
+							seen++
+							gte := strings.Index(src, ".GTE(maxVotingPower)")
+							add := strings.LastIndex(src, pn+".add(")
+							if !(strings.Contains(src, pn+".validator(") && strings.Contains(src, pn+".total") && gte >= 0 && add > gte) {
+								okCases = false
+							}
+						case "authz.MsgExec":
+							if !strings.Contains(src, "validateMsg(ctx, ") || !strings.Contains(src, ", "+pn+")") {
+								okCases = false
+							}
+						}
+					}
+				}
+			}
+			ahSrc := c.Src(ah.Body)
+			created := strings.Index(ahSrc, ":= newPendingStake()")
+			loop := strings.Index(ahSrc, "for ")
+			if okCases && seen == 2 && created >= 0 && loop > created && strings.Contains(ahSrc, "validateMsg(ctx, msg, ") && FindFunc(files, "pendingStake", "add") != nil {
+				cumulative = "some true"
+			}
+		}
+	}
+	sb.WriteString("/-- are (re)delegations judged against the stake as it will be when they execute (amounts admitted earlier in\n    the same transaction added per validator and in total): `some true`, per message against the state the\n    transaction starts from: `some false`, not recognised: `none` -/\n")
+	sb.WriteString("def commissionCumulative : Option Bool := " + cumulative + "\n\n")
 	sb.WriteString("/-- message types of the type switch of validateMsg, in source order -/\n")
 	sb.WriteString("def commissionCases : List String := " + leanStrList(cases) + "\n")
 	sb.WriteString("def commissionUnwrapsExec : Option Bool := " + comUnwrap + "\n\n")
@@ -472,7 +529,8 @@ func recursesInto(c *Ctx, body []ast.Stmt, fn string) bool {
 		case *ast.RangeStmt:
 			if gotMsgs != "" && c.Src(s.X) == gotMsgs && s.Value != nil {
 				v := c.Src(s.Value)
-				if strings.Contains(c.Src(s.Body), "."+fn+"(ctx, "+v+")") && returnsErr(c, s.Body.List) {
+				body := c.Src(s.Body)
+				if (strings.Contains(body, "."+fn+"(ctx, "+v+")") || strings.Contains(body, "."+fn+"(ctx, "+v+", ")) && returnsErr(c, s.Body.List) {
 					loops = true
 				}
 			}
